@@ -453,3 +453,117 @@ Proof.
     apply Forall_cons in HrefF as [[H1 H2] HrefFL]. apply Forall_cons. split; [|done].
     split; [exact Href|exact H2].
 Qed.
+
+(** * PART F: data changes *)
+
+(** [set_data] *)
+Lemma tid_set_data_t p d' t : tid (set_data_t p d' t) = tid t.
+Proof. destruct t as [i d cs]. cbn. by destruct (decide (i = p)). Qed.
+Lemma roots_set_data p d' F : roots (set_data p d' F) = roots F.
+Proof.
+  unfold roots, set_data. rewrite <- list_fmap_compose. apply list_fmap_ext.
+  intros ? t _. apply tid_set_data_t.
+Qed.
+Lemma set_data_t_notin p d' t : p ∉ ids_t t -> set_data_t p d' t = t.
+Proof.
+  induction t as [i d cs IH] using tree_ind'. intros Hp. rewrite ids_t_unfold in Hp.
+  apply not_elem_of_cons in Hp as [Hpi Hp]. cbn. rewrite decide_False by done. f_equal.
+  induction cs as [|c cs IHcs]; [done|]. rewrite fmap_cons.
+  rewrite ids_cons in Hp. apply not_elem_of_app in Hp as [Hp1 Hp2].
+  apply Forall_cons in IH as [IH1 IH2]. f_equal; [by apply IH1|by apply IHcs].
+Qed.
+Lemma set_data_notin p d' F : p ∉ ids F -> set_data p d' F = F.
+Proof.
+  induction F as [|t F IH]; intros Hp; [done|]. rewrite ids_cons in Hp.
+  apply not_elem_of_app in Hp as [Hp1 Hp2]. unfold set_data. rewrite fmap_cons.
+  f_equal; [by apply set_data_t_notin|by apply IH].
+Qed.
+
+(** replacing the data of the (unique) node [p] changes exactly one flat entry *)
+Definition set_data_spec (flatX : list fnode) (flatX' : rdata -> list fnode) p d (ks : list positive) : Prop :=
+  exists FL, flatX ≡ₚ (p, d, ks) :: FL /\ forall d', flatX' d' ≡ₚ (p, d', ks) :: FL.
+
+Lemma flat_set_data_list ts p d cs :
+  Forall (fun t => NoDup (ids_t t) -> T p d cs ∈ nodes_t t ->
+                   set_data_spec (flat_t t) (fun d' => flat_t (set_data_t p d' t)) p d (tid <$> cs)) ts ->
+  NoDup (ids ts) -> T p d cs ∈ nodes ts ->
+  set_data_spec (flat ts) (fun d' => flat (set_data p d' ts)) p d (tid <$> cs).
+Proof.
+  intros IH ND Hin. apply elem_of_nodes in Hin as (t & Ht & Hn).
+  apply elem_of_list_split in Ht as (l1 & l2 & ->).
+  rewrite ids_app, ids_cons in ND. apply NoDup_app in ND as (N1 & N12 & N2).
+  apply NoDup_app in N2 as (Nt & Nt2 & N2).
+  assert (Hp : p ∈ ids_t t) by (apply elem_of_list_fmap; exists (T p d cs); done).
+  apply Forall_app in IH as [_ IH]. apply Forall_cons in IH as [IHt _].
+  destruct (IHt Nt Hn) as (FL & E1 & E2).
+  exists (flat l1 ++ FL ++ flat l2). split.
+  - rewrite flat_app, flat_cons, E1. cbn. by rewrite <- Permutation_middle.
+  - intros d'. unfold set_data. rewrite fmap_app, fmap_cons.
+    fold (set_data p d' l1). fold (set_data p d' l2).
+    rewrite (set_data_notin _ _ l1), (set_data_notin _ _ l2).
+    + rewrite flat_app, flat_cons, E2. cbn. by rewrite <- Permutation_middle.
+    + intros Hin. by apply (Nt2 _ Hp).
+    + intros Hin. apply (N12 _ Hin). apply elem_of_app. by left.
+Qed.
+
+Lemma flat_set_data_t t p d cs :
+  NoDup (ids_t t) -> T p d cs ∈ nodes_t t ->
+  set_data_spec (flat_t t) (fun d' => flat_t (set_data_t p d' t)) p d (tid <$> cs).
+Proof.
+  induction t as [i d0 cs0 IH] using tree_ind'. intros ND Hin.
+  rewrite ids_t_unfold in ND. apply NoDup_cons in ND as [Hi ND].
+  rewrite nodes_t_unfold in Hin. apply elem_of_cons in Hin as [Heq|Hin].
+  - inversion Heq; subst. exists (flat cs0). split.
+    + by rewrite flat_t_unfold.
+    + intros d'. cbn [set_data_t]. rewrite decide_True by done. by rewrite flat_t_unfold.
+  - assert (Hp : p ∈ ids cs0) by (apply elem_of_list_fmap; exists (T p d cs); done).
+    assert (i <> p) by (intros ->; done).
+    destruct (flat_set_data_list cs0 p d cs IH ND Hin) as (FL & E1 & E2).
+    exists ((i, d0, tid <$> cs0) :: FL). split.
+    + rewrite flat_t_unfold, E1. apply perm_swap.
+    + intros d'. cbn [set_data_t]. rewrite decide_False by done. rewrite flat_t_unfold.
+      fold (set_data p d' cs0). pose proof (roots_set_data p d' cs0) as Hr. unfold roots in Hr.
+      rewrite Hr, E2. apply perm_swap.
+Qed.
+
+Lemma flat_set_data F p d cs :
+  NoDup (ids F) -> T p d cs ∈ nodes F ->
+  exists FL, flat F ≡ₚ (p, d, tid <$> cs) :: FL /\
+             forall d', flat (set_data p d' F) ≡ₚ (p, d', tid <$> cs) :: FL.
+Proof.
+  intros ND Hin. apply flat_set_data_list; [|done|done].
+  apply Forall_forall. intros t _. apply flat_set_data_t.
+Qed.
+
+(** re-establish [WF] after a change of the data of node [x] (and possibly of the string heap):
+    the heap parts that [WF] reads are given pointwise *)
+Lemma WF_set_data h h' F F' x d d' (ks : list positive) FL :
+  WF h F ->
+  flat F ≡ₚ (x, d, ks) :: FL -> flat F' ≡ₚ (x, d', ks) :: FL -> roots F' ≡ₚ roots F ->
+  h_lnk h' = h_lnk h -> h_dat h' = <[x := mk_dat d' ks]> (h_dat h) ->
+  NoDup (owned F') ->
+  (forall b, b ∈ owned F' -> b ∈ h_live h' /\ h_own h' !! b = Some Lib /\ (b < h_next h')%positive) ->
+  ref_ok (x, d', ks) ->
+  WF h' F'.
+Proof.
+  intros W HFL HFL' HR Hl Hd NDo Hown Hrok.
+  assert (Hids : ids F' ≡ₚ ids F) by (by rewrite !ids_flat, HFL, HFL').
+  assert (ND' : NoDup (ids F')) by (rewrite Hids; apply W).
+  pose proof (wf_nodup _ _ W) as ND.
+  constructor.
+  - done.
+  - rewrite Hl, (wf_lnk _ _ W). unfold heap_lnk_of.
+    assert (NDk : NoDup (lnk_keys (roots F) (flat F))) by (by rewrite lnk_keys_ids).
+    assert (NDk' : NoDup (lnk_keys (roots F') (flat F'))) by (by rewrite lnk_keys_ids).
+    rewrite (lnk_of_perm _ _ _ _ NDk (reflexivity _) HFL).
+    rewrite (lnk_of_perm _ _ _ _ NDk' HR HFL'). reflexivity.
+  - rewrite Hd, (wf_dat _ _ W).
+    destruct (heap_dat_of_focus _ _ _ _ _ ND HFL) as [-> _].
+    destruct (heap_dat_of_focus _ _ _ _ _ ND' HFL') as [-> _]. by rewrite insert_insert.
+  - done.
+  - intros b Hb. by apply Hown.
+  - intros b Hb. by apply Hown.
+  - intros b Hb. by apply Hown.
+  - pose proof (wf_ref _ _ W) as HrefF. rewrite HFL in HrefF. rewrite HFL'.
+    apply Forall_cons in HrefF as [_ HrefFL]. by apply Forall_cons.
+Qed.
